@@ -1334,6 +1334,8 @@ class Engine:
             return Rec(o.cls, {f: self.snapshot(x, st, depth + 1) for f, x in o.fields.items()})
         if isinstance(v, Tup):
             return Tup([self.snapshot(x, st, depth + 1) for x in v.items])
+        if isinstance(v, Rec) and depth < 6 and any(isinstance(x, (Ref, Rec, Tup)) for x in v.fields.values()):
+            return Rec(v.cls, {f: self.snapshot(x, st, depth + 1) for f, x in v.fields.items()})
         return v
 
     def ev_YieldFrom(self, node, st):
@@ -1449,6 +1451,9 @@ class Engine:
                 return None
             handled = True
             for s2, args in self.ev_seq(list(node.args), s):
+                if node.func.attr in ('append', 'insert') and any(isinstance(a_, (Ref, Rec)) for a_ in args):
+                    # objects put into a sequence are stored by value (see snapshot)
+                    args = [self.snapshot(a_, s2) for a_ in args]
                 if node.func.attr == 'extend' and not isinstance(args[0], (View, bytes, Tup)):
                     args = [self.to_iter_view(args[0], s2, node)]
                 if node.func.attr == 'append' and isinstance(args[0], Ref):
